@@ -195,3 +195,17 @@ PROPS["C16"] = dict(
                   "is_prime as used by next_prime: never rejects a prime, exact below 2^64 (ASSUMED; bounded stand-in)"],
     explanation="gcd / lcm for 1, 2, 3 arguments and for one iterable equal the fold of math.gcd / a*b//gcd; next_prime: partial correctness (greater, prime, no prime in between) by a quantified loop invariant from is_prime's assumed contract; is_prime and factorization are decided by bounded stand-ins",
 )
+
+_EH = "ecdsa.ecdh.ECDH."
+PROPS["C05"] = dict(
+    level="proof",
+    functions=[_EH + f for f in ("_get_shared_secret", "generate_sharedsecret", "generate_sharedsecret_bytes", "load_private_key", "load_received_public_key",
+                                 "load_received_public_key_bytes", "load_received_public_key_der", "load_received_public_key_pem",
+                                 "load_private_key_bytes", "load_private_key_der", "load_private_key_pem")] + ["ecdsa.util.number_to_string", "ecdsa.util.orderlen"],
+    lemmas=["C05.both_parties_agree"],
+    bounded=[],
+    min_obligations=20,
+    trusted_base=["scalar mode (see C02): Q_B = d_B G, k*P contract of PointJacobi.__mul__, x() canonical in [0, p-1] (C06)",
+                  "the key constructors VerifyingKey.from_string/from_der/from_pem and SigningKey.from_* are applied by contract (C08/C09/C10): they return a validated key or raise a documented error"],
+    explanation="every ECDH method is executed from the real AST: refusal conditions, InvalidSharedSecretError iff the product is the identity, secret = x(dA dB G), bytes = that integer left-padded to the field length, loaders keep `stored keys are on the agreed curve` and store remote keys only when built with point validation on; symmetry lemma over the contracts",
+)
